@@ -31,6 +31,9 @@ def run_e4(ctx, items, worker, nchunks=None, quiet=True):
     def f(part):
         acc = Acc()
         warnings.simplefilter("ignore")
+        import logging
+
+        logging.disable(logging.CRITICAL)
         if quiet:
             with contextlib.redirect_stdout(io.StringIO()):
                 worker(part, acc)
